@@ -80,7 +80,8 @@ class C07(Check):
         "histories of 0..6 operations over {crosscorrelate / autocorrelate with a configuration from a colliding pool "
         "(same edges other closed side, edges differing by 1 ulp and by 1e-9, same bin count other edges, sub-/superset "
         "of edges, one bin, other scales only), build_trees(edges|None, closed, force), reopen Catalog(dir), swap the "
-        "binned/unbinned roles of catalogs that all carry redshifts, redshift histogram}, followed by a final cross- and "
+        "binned/unbinned roles of catalogs that all carry redshifts, redshift histogram, BinnedTrees.build on a single patch "
+        "(patches of one catalog then cache different binnings)}, followed by a final cross- and "
         "autocorrelation whose arrays are compared bitwise with the same measurement on freshly created caches. "
         "Redshifts include every edge value of every pool configuration exactly, so a wrongly reused tree changes counts. "
         "All histories of <= 2 measurements over a 6-configuration pool are enumerated (thorough; quick: a seeded third); "
@@ -111,6 +112,12 @@ class C07(Check):
             pairs_ = [pairs_[i] for i in sorted(rng.choice(len(pairs_), 12, replace=False))]
         for a, b in pairs_:
             strat.append(dict(kind="two-handles", ops=[["cross", a], ["cross_new", b]], final=a))
+        # mixed caches: measure with A, rebuild ONE patch of a binned catalog for B, measure with A or B
+        mixed = [(a, b, cat, pid) for a in CORE6 for b in CORE6 if a != b for cat in ("ref", "rr") for pid in (0, 1, 2)]
+        if q:
+            mixed = [mixed[i] for i in sorted(rng.choice(len(mixed), 24, replace=False))]
+        for j, (a, b, cat, pid) in enumerate(mixed):
+            strat.append(dict(kind="mixed-patches", ops=[["cross", a], ["build_patch", cat, pid, b, False]], final=[a, b][j % 2]))
         for i, c in enumerate(strat):
             c["seed"] = seed * 1009 + (i % 7)
             yield c
@@ -118,11 +125,17 @@ class C07(Check):
             length = int(rng.integers(1, 7))
             ops = []
             for _ in range(length):
-                k = rng.choice(["cross", "auto", "build", "build_none", "reopen", "swap", "hist"], p=[0.28, 0.14, 0.16, 0.08, 0.2, 0.09, 0.05])
+                k = rng.choice(["cross", "auto", "build", "build_none", "reopen", "swap", "hist", "build_patch"],
+                               p=[0.25, 0.12, 0.14, 0.07, 0.18, 0.08, 0.05, 0.11])
                 if k in ("cross", "auto", "swap", "hist"):
                     ops.append([str(k), str(rng.choice(NAMES))])
                 elif k == "build":
                     ops.append(["build", str(rng.choice(["ref", "unk", "rr", "ur"])), str(rng.choice(NAMES)), bool(rng.random() < 0.3)])
+                elif k == "build_patch":
+                    # the documented per-patch entry point: the trees of ONE patch are rebuilt, so the patches of a
+                    # catalog hold trees of different binnings afterwards
+                    ops.append(["build_patch", str(rng.choice(["ref", "unk", "rr", "ur"])), int(rng.integers(0, 3)),
+                                str(rng.choice(NAMES + ["none"])), bool(rng.random() < 0.3)])
                 elif k == "build_none":
                     ops.append(["build_none", str(rng.choice(["ref", "unk", "rr", "ur"])), bool(rng.random() < 0.3)])
                 else:
@@ -219,6 +232,13 @@ class C07(Check):
                         hist[op[1]].build_trees(c["edges"], closed=c["closed"], force=op[3], max_workers=nw)
                         if op[1] in ("ref", "rr"):
                             last_binned = op[2]
+                    elif kind == "build_patch":
+                        from yaw.binning import Binning
+                        from yaw.catalog.trees import BinnedTrees
+
+                        binning = None if op[3] == "none" else Binning(POOL[op[3]]["edges"], closed=POOL[op[3]]["closed"])
+                        BinnedTrees.build(hist[op[1]][op[2]], binning, force=op[4])
+                        last_binned = f"patch{op[2]}-of-{op[1]}:{op[3]}"
                     elif kind == "build_none":
                         hist[op[1]].build_trees(None, force=op[2], max_workers=1)
                         if op[1] in ("ref", "rr"):
